@@ -293,7 +293,8 @@ class PrettyPrinter:
         if key == "symbol" and level > 0:
             return False
         return (
-            key in COMPLEX_TYPES
+            # keywords such as SYMBOLSET, STYLE or SYMBOL can also be simple values
+            (key in COMPLEX_TYPES and isinstance(composite[key], (dict, list)))
             or self.is_composite(key)
             or self.is_hidden_container(key, composite[key])
         )
